@@ -1863,3 +1863,72 @@ func rulePOPT(p *Program, r *Reporter) {
 		r.Info("P-OPT: no reflect.Value.IsZero call in packages ovsdb/mapper (nothing to decide)")
 	}
 }
+
+// ---------------------------------------------------------------------------
+// MAP-EQ — two maps are never compared entry by entry through a single-value
+// lookup: inside `for k, v := range m1`, `m2[k] == v` (or !=) also holds for
+// a key that m2 does not have when v is the zero value. Obligation per
+// single-value map lookup keyed by the key of a range over another map whose
+// result is compared with that range's value.
+
+func ruleMAPEQ(p *Program, r *Reporter) {
+	const id = "MAP-EQ"
+	n, nAll := 0, 0
+	for _, fn := range p.srcFuncs {
+		for _, b := range fn.Blocks {
+			for _, ins := range b.Instrs {
+				lk, ok := ins.(*ssa.Lookup)
+				if !ok || lk.CommaOk {
+					continue
+				}
+				if _, isMap := lk.X.Type().Underlying().(*types.Map); !isMap {
+					continue
+				}
+				// key and compared value come from one Next of a range over a different map
+				kx, ok := lk.Index.(*ssa.Extract)
+				if !ok || kx.Index != 1 {
+					continue
+				}
+				nx, ok := kx.Tuple.(*ssa.Next)
+				if !ok || nx.IsString {
+					continue
+				}
+				rg, ok := nx.Iter.(*ssa.Range)
+				if !ok || rg.X == lk.X {
+					continue
+				}
+				nAll++
+				refs := lk.Referrers()
+				if refs == nil {
+					continue
+				}
+				bad := false
+				for _, rf := range *refs {
+					bo, ok := rf.(*ssa.BinOp)
+					if !ok || (bo.Op != token.EQL && bo.Op != token.NEQ) {
+						continue
+					}
+					other := bo.X
+					if other == ssa.Value(lk) {
+						other = bo.Y
+					}
+					// strip interface wrapping
+					if mi, ok := other.(*ssa.MakeInterface); ok {
+						other = mi.X
+					}
+					if vx, ok := other.(*ssa.Extract); ok && vx.Index == 2 && vx.Tuple == kx.Tuple {
+						bad = true
+					}
+				}
+				if !bad {
+					continue
+				}
+				n++
+				r.Ob(id, funcName(fn), "entrywise map comparison", lk.Pos(), false, true,
+					"the entries of one map are compared with single-value lookups in another: a key the other map lacks reads as the zero value and matches a zero-valued entry, so maps with different key sets compare equal / yield an empty difference")
+			}
+		}
+	}
+	r.Ob(id, "all packages", "single-value lookups keyed by another map's range", token.NoPos, true, nAll > 0,
+		fmt.Sprintf("%d such lookups examined, %d compared with the ranged value", nAll, n))
+}
